@@ -60,3 +60,27 @@ def norm_observed(obs):
     toks = [(t[0], t[1], t[2], t[3], t[4]) for t in obs["tokens"]]
     diags = sorted((d[0], d[1], tuple(tuple(h) for h in d[2])) for d in obs["diags"])
     return toks, diags, obs["exc"]
+
+
+# ---------------------------------------------------------------------------
+import cache
+
+
+class Stat:
+    def __init__(self, d):
+        self.__dict__.update(d)
+
+
+def cached_config(cfgname, maxlen, dev=(), check=True):
+    """(stats: list of Stat(distinct, generated, wall, ok, violated, error), exports, was_cached)"""
+    dev = sorted(dev)
+    k = cache.key("lexcfg", cfgname, ALPHABETS[cfgname][0], maxlen, dev, check, INVARIANTS, PROPERTIES)
+    c = cache.get(k)
+    if c is not None:
+        return [Stat(s) for s in c["stats"]], c["exports"], True
+    results, exports = run_config(cfgname, maxlen, set(dev), check=check)
+    stats = [dict(distinct=r.distinct, generated=r.generated, wall=r.wall, ok=r.ok, violated=r.violated,
+                  error=r.error, stdout_path=r.stdout_path) for r in results]
+    if all(r.ok for r in results):
+        cache.put(k, dict(stats=stats, exports=exports))
+    return [Stat(s) for s in stats], exports, False
